@@ -1,0 +1,374 @@
+//! Verification hooks. Compiled only with `--cfg weechess_verif`; nothing in here is
+//! reachable from a normal build. The hooks only *call* the real search, table and history
+//! code of the parent module, they do not re-implement any of it.
+
+use super::*;
+use std::cell::Cell;
+use std::sync::atomic::AtomicUsize;
+use std::sync::{Condvar, Mutex};
+
+thread_local! {
+    // Index of the search worker running on this thread (None outside of a scheduled worker)
+    static WORKER: Cell<Option<usize>> = Cell::new(None);
+}
+
+struct SchedState {
+    rng: u64,
+    expected: usize,
+    entered: usize,
+    alive: Vec<usize>,
+    current: Option<usize>,
+    switches: usize,
+    points: usize,
+    trace: u64,
+}
+
+/// A seeded baton scheduler: all workers of one search iteration first meet at a barrier,
+/// then exactly one of them runs at a time. At every shared-table access the running worker
+/// hands the baton to a worker drawn from a SplitMix64 stream of the seed.
+pub struct Sched {
+    st: Mutex<SchedState>,
+    cv: Condvar,
+}
+
+impl Sched {
+    pub fn new(seed: u64) -> Arc<Self> {
+        Arc::new(Self {
+            st: Mutex::new(SchedState {
+                rng: seed ^ 0x9E3779B97F4A7C15,
+                expected: 0,
+                entered: 0,
+                alive: vec![],
+                current: None,
+                switches: 0,
+                points: 0,
+                trace: 0,
+            }),
+            cv: Condvar::new(),
+        })
+    }
+
+    /// (yield points seen, baton switches, hash of the sequence of baton holders)
+    pub fn stats(&self) -> (usize, usize, u64) {
+        let s = self.st.lock().unwrap_or_else(|e| e.into_inner());
+        (s.points, s.switches, s.trace)
+    }
+
+    fn next(rng: &mut u64) -> u64 {
+        *rng = rng.wrapping_add(0x9E3779B97F4A7C15);
+        let mut z = *rng;
+        z = (z ^ (z >> 30)).wrapping_mul(0xBF58476D1CE4E5B9);
+        z = (z ^ (z >> 27)).wrapping_mul(0x94D049BB133111EB);
+        z ^ (z >> 31)
+    }
+
+    fn pick(st: &mut SchedState) {
+        if st.alive.is_empty() {
+            st.current = None;
+            return;
+        }
+
+        let r = Self::next(&mut st.rng);
+        let k = (r % st.alive.len() as u64) as usize;
+        let n = st.alive[k];
+        if st.current != Some(n) {
+            st.switches += 1;
+        }
+
+        st.trace = (st.trace ^ (n as u64 + 1)).wrapping_mul(0x100000001B3);
+        st.current = Some(n);
+    }
+
+    fn enter(&self, index: usize, n: usize) {
+        let mut st = self.st.lock().unwrap_or_else(|e| e.into_inner());
+        if st.entered == 0 {
+            st.expected = n;
+            st.alive.clear();
+            st.current = None;
+        }
+
+        st.entered += 1;
+        st.alive.push(index);
+        WORKER.with(|w| w.set(Some(index)));
+        if st.entered == st.expected {
+            st.alive.sort();
+            Self::pick(&mut st);
+            self.cv.notify_all();
+        }
+
+        while st.current != Some(index) {
+            st = self.cv.wait(st).unwrap_or_else(|e| e.into_inner());
+        }
+    }
+
+    fn yield_point(&self) {
+        let Some(index) = WORKER.with(|w| w.get()) else {
+            return;
+        };
+
+        let mut st = self.st.lock().unwrap_or_else(|e| e.into_inner());
+        st.points += 1;
+        Self::pick(&mut st);
+        if st.current != Some(index) {
+            self.cv.notify_all();
+            while st.current != Some(index) {
+                st = self.cv.wait(st).unwrap_or_else(|e| e.into_inner());
+            }
+        }
+    }
+
+    fn exit(&self) {
+        let Some(index) = WORKER.with(|w| w.take()) else {
+            return;
+        };
+
+        let mut st = self.st.lock().unwrap_or_else(|e| e.into_inner());
+        st.alive.retain(|i| *i != index);
+        if st.alive.is_empty() {
+            st.entered = 0;
+            st.expected = 0;
+            st.current = None;
+        } else {
+            Self::pick(&mut st);
+        }
+
+        self.cv.notify_all();
+    }
+}
+
+pub struct Guard(Option<Arc<Sched>>);
+
+impl Drop for Guard {
+    fn drop(&mut self) {
+        if let Some(s) = &self.0 {
+            s.exit();
+        }
+    }
+}
+
+impl TranspositionTableAccess {
+    pub(super) fn verif_enter(&self, index: usize, n: usize) -> Guard {
+        let s = self
+            .verif_sched
+            .lock()
+            .unwrap_or_else(|e| e.into_inner())
+            .clone();
+
+        if let Some(s) = &s {
+            s.enter(index, n);
+        }
+
+        Guard(s)
+    }
+
+    pub(super) fn verif_yield(&self) {
+        if WORKER.with(|w| w.get()).is_none() {
+            return;
+        }
+
+        let s = self
+            .verif_sched
+            .lock()
+            .unwrap_or_else(|e| e.into_inner())
+            .clone();
+
+        if let Some(s) = s {
+            s.yield_point();
+        }
+    }
+}
+
+/// Node clock: raises the cancellation flag when the global node count reaches `cancel_at`,
+/// counts the nodes searched while the flag is up and panics with `VERIF_OVERRUN` beyond
+/// `overrun_cap`, so that a search that ignores Stop ends and can be reported.
+pub struct CancelProbe {
+    pub cancel_at: AtomicUsize,
+    pub overrun_cap: AtomicUsize,
+    pub total: AtomicUsize,
+    pub after_cancel: AtomicUsize,
+}
+
+pub const OVERRUN_MESSAGE: &str = "VERIF_OVERRUN";
+
+impl CancellationToken {
+    pub(super) fn verif_on_node(&self) {
+        if let Some(p) = &self.verif_probe {
+            let t = p.total.fetch_add(1, Ordering::SeqCst) + 1;
+            if t == p.cancel_at.load(Ordering::SeqCst) {
+                self.cancel();
+            }
+
+            if self.is_cancelled() {
+                let a = p.after_cancel.fetch_add(1, Ordering::SeqCst) + 1;
+                if a > p.overrun_cap.load(Ordering::SeqCst) {
+                    panic!("{}", OVERRUN_MESSAGE);
+                }
+            }
+        }
+    }
+}
+
+/// A fresh search memory of a chosen geometry (the default one is 128 tables / 1 GiB).
+pub fn small_artifact(hasher_seed: u64, tables: usize, buckets: usize) -> SearchArtifact {
+    let mut rng = RandomNumberGenerator::seed_from_u64(hasher_seed);
+    SearchArtifact {
+        hasher: ZobristHasher::with(&mut rng),
+        transpositions: TranspositionTableAccess::with_tables(
+            (0..tables)
+                .map(|_| TranspositionTable::with_bucket_count(buckets))
+                .collect(),
+        ),
+        state_history: StateHistory::new(),
+    }
+}
+
+pub fn set_scheduler(a: &SearchArtifact, s: Option<Arc<Sched>>) {
+    *a.transpositions
+        .verif_sched
+        .lock()
+        .unwrap_or_else(|e| e.into_inner()) = s;
+}
+
+/// Put a position into the repetition history (the public API records search roots only).
+pub fn record_history(a: &mut SearchArtifact, s: &State) {
+    let h = a.hasher.hash(s);
+    a.state_history.increment(h);
+}
+
+pub fn history_contains(a: &SearchArtifact, s: &State) -> bool {
+    let h = a.hasher.hash(s);
+    a.state_history.lookup(&h).is_some()
+}
+
+pub fn history_len(a: &SearchArtifact) -> usize {
+    a.state_history.states.len()
+}
+
+/// (entries, max_entries) of the artifact's shared table
+pub fn table_usage(a: &SearchArtifact) -> (usize, usize) {
+    (a.transpositions.entries(), a.transpositions.max_entries())
+}
+
+pub fn artifact_hash(a: &SearchArtifact, s: &State) -> Hash {
+    a.hasher.hash(s)
+}
+
+pub struct SyncReport {
+    pub nodes_total: usize,
+    pub nodes_after_cancel: usize,
+    pub cancelled: bool,
+}
+
+/// Runs the real `analyze_iterative` on the calling thread with an explicit worker count and
+/// a node-clock cancellation.
+pub fn analyze_sync<F: FnMut(StatusEvent)>(
+    state: State,
+    evaluator: &eval::Evaluator,
+    seed: u64,
+    max_depth: Option<usize>,
+    artifact: Option<SearchArtifact>,
+    threads: Option<usize>,
+    cancel_after_nodes: Option<usize>,
+    overrun_cap: usize,
+    f: &mut F,
+) -> (SearchArtifact, SyncReport) {
+    let probe = Arc::new(CancelProbe {
+        cancel_at: AtomicUsize::new(cancel_after_nodes.unwrap_or(usize::MAX)),
+        overrun_cap: AtomicUsize::new(overrun_cap),
+        total: AtomicUsize::new(0),
+        after_cancel: AtomicUsize::new(0),
+    });
+
+    let (mut token, _) = CancellationToken::new();
+    token.verif_probe = Some(probe.clone());
+    if cancel_after_nodes == Some(0) {
+        token.cancel();
+    }
+
+    let cancelled = token.cancelled.clone();
+    let a = Searcher::analyze_iterative(
+        state,
+        evaluator,
+        RandomNumberGenerator::seed_from_u64(seed),
+        max_depth,
+        token,
+        artifact,
+        threads,
+        f,
+    );
+
+    (
+        a,
+        SyncReport {
+            nodes_total: probe.total.load(Ordering::SeqCst),
+            nodes_after_cancel: probe.after_cancel.load(Ordering::SeqCst),
+            cancelled: cancelled.load(Ordering::SeqCst),
+        },
+    )
+}
+
+/// The private shared transposition table, as a plain keyed store.
+pub struct Table(TranspositionTableAccess);
+
+#[derive(Clone, Copy, Debug, PartialEq, Eq)]
+pub struct TableEntry {
+    /// 0 = exact, 1 = upper bound, 2 = lower bound
+    pub kind: u8,
+    pub performed_move: Move,
+    pub depth: usize,
+    pub max_depth: usize,
+    pub evaluation: i32,
+}
+
+impl Table {
+    pub fn new(tables: usize, buckets: usize) -> Self {
+        Self(TranspositionTableAccess::with_tables(
+            (0..tables)
+                .map(|_| TranspositionTable::with_bucket_count(buckets))
+                .collect(),
+        ))
+    }
+
+    pub fn insert(&self, key: Hash, e: TableEntry) {
+        self.0.insert(
+            key,
+            TranspositionEntry {
+                kind: match e.kind {
+                    0 => EvaluationKind::Exact,
+                    1 => EvaluationKind::UpperBound,
+                    _ => EvaluationKind::LowerBound,
+                },
+                performed_move: e.performed_move,
+                depth: e.depth,
+                max_depth: e.max_depth,
+                evaluation: Evaluation::from(e.evaluation),
+            },
+        )
+    }
+
+    pub fn find(&self, key: Hash) -> Option<TableEntry> {
+        self.0.find(key).map(|e| TableEntry {
+            kind: match e.kind {
+                EvaluationKind::Exact => 0,
+                EvaluationKind::UpperBound => 1,
+                EvaluationKind::LowerBound => 2,
+            },
+            performed_move: e.performed_move,
+            depth: e.depth,
+            max_depth: e.max_depth,
+            evaluation: e.evaluation.into(),
+        })
+    }
+
+    pub fn entries(&self) -> usize {
+        self.0.entries()
+    }
+
+    pub fn max_entries(&self) -> usize {
+        self.0.max_entries()
+    }
+
+    pub fn saturation(&self) -> f32 {
+        self.0.saturation()
+    }
+}
